@@ -15,10 +15,11 @@ package checks
 // Disconnect, Connect, Echo, Close); every probe must return.
 
 import (
-	"os"
 	"context"
 	"fmt"
+	"os"
 	"reflect"
+	"regexp"
 	"runtime"
 	"sort"
 	"strings"
@@ -286,6 +287,7 @@ func c18Stress(r *ev.Run, m *dyn.Model, p *prng.R, batch, si int) {
 		return
 	}
 	defer e.close()
+	e.px.SetKeepPayloads(3000)
 	cl := e.cl
 	ctx0, cancel0 := context.WithTimeout(context.Background(), 20*time.Second)
 	err = cl.Connect(ctx0)
@@ -387,6 +389,12 @@ func c18Stress(r *ev.Run, m *dyn.Model, p *prng.R, batch, si int) {
 				mu.Unlock()
 				if first {
 					tl("FIRST TORN ROW %s: %s (cache %p)", path, t, cl.Cache())
+					// what did the wire carry for the versions involved?
+					for _, v := range regexp.MustCompile(`"v[0-9]+"`).FindAllString(t, -1) {
+						for _, pl := range e.px.PayloadsContaining(v) {
+							tl("wire message containing %s: %s", v, pl)
+						}
+					}
 				}
 			}
 		}
